@@ -7,9 +7,10 @@
 (* VStep(s, c) consumes one byte.  The first failure is absorbing and       *)
 (* records its kind and offset.  VFinish(s) classifies the whole input:     *)
 (*   MUST-accept  canonical  major.minor.patch[-pre][+build]               *)
+(*                (a decimal component may have leading zeros: `007` is 7) *)
 (*   MAY-accept   canonical core plus documented decorations: surrounding  *)
-(*                blanks, leading v/V (and blanks after it), leading zeros *)
-(*                on a component, prerelease written without its hyphen    *)
+(*                blanks, leading v/V (and blanks after it), prerelease    *)
+(*                written without its hyphen                               *)
 (*   MUST-reject  everything else; components above MAX_SAFE_INTEGER;      *)
 (*                length above MAX_LENGTH                                  *)
 (* In both accept classes the fields are exactly the denoted ones.         *)
@@ -47,19 +48,19 @@ VStepLive(s, c) ==
     [] s.ph = "M" ->
          IF IsDigit(c) THEN [s EXCEPT !.M = Append(@, DVal(c))]
          ELSE IF ~FitsSafe(s.M) THEN NumFail(s, s.M)
-         ELSE IF c = 46 THEN [s EXCEPT !.ph = "m0", !.loose = @ \/ LooseNum(s.M)]
+         ELSE IF c = 46 THEN [s EXCEPT !.ph = "m0"]
          ELSE VDead(s)
     [] s.ph = "m0" -> IF IsDigit(c) THEN [s EXCEPT !.ph = "m", !.m = <<DVal(c)>>, !.cstart = s.pos] ELSE VDead(s)
     [] s.ph = "m" ->
          IF IsDigit(c) THEN [s EXCEPT !.m = Append(@, DVal(c))]
          ELSE IF ~FitsSafe(s.m) THEN NumFail(s, s.m)
-         ELSE IF c = 46 THEN [s EXCEPT !.ph = "p0", !.loose = @ \/ LooseNum(s.m)]
+         ELSE IF c = 46 THEN [s EXCEPT !.ph = "p0"]
          ELSE VDead(s)
     [] s.ph = "p0" -> IF IsDigit(c) THEN [s EXCEPT !.ph = "p", !.p = <<DVal(c)>>, !.cstart = s.pos] ELSE VDead(s)
     [] s.ph = "p" ->
          IF IsDigit(c) THEN [s EXCEPT !.p = Append(@, DVal(c))]
          ELSE IF ~FitsSafe(s.p) THEN NumFail(s, s.p)
-         ELSE LET t == [s EXCEPT !.loose = @ \/ LooseNum(s.p)] IN
+         ELSE LET t == s IN
               IF c = 45 THEN [t EXCEPT !.ph = "pre0"]
               ELSE IF c = 43 THEN [t EXCEPT !.ph = "b0"]
               ELSE IF IsAlpha(c) THEN [t EXCEPT !.ph = "pre", !.cur = <<c>>, !.loose = TRUE]
@@ -97,7 +98,7 @@ IdsOf(l) == [i \in 1..Len(l) |-> IdOf(l[i])]
 \* end of input: verdict class, fields, first failure
 VFinish(s) ==
   LET okRec(pre, bld, must) ==
-        [ok |-> TRUE, must |-> must /\ ~LooseNum(s.p),
+        [ok |-> TRUE, must |-> must,
          val |-> Ver(Norm(s.M), Norm(s.m), Norm(s.p), IdsOf(pre), IdsOf(bld)), fkind |-> "none", foff |-> 0]
       fail(kind, off) == [ok |-> FALSE, must |-> FALSE, val |-> <<>>, fkind |-> kind, foff |-> off]
   IN CASE s.ph = "dead" -> fail(s.fkind, s.foff)
